@@ -10,6 +10,7 @@
 
 #include <algorithm>
 #include <sstream>
+#include <limits>
 #include <cmath>
 #include <cctype>
 
@@ -113,9 +114,13 @@ namespace
             }
             else
             {
+                // the placeholder number saturates (std::stoi throws on a long digit string)
                 size_t end;
-                for (end = newoff; format[end] >= '0' && format[end] <= '9'; ++end);
-                auto num = std::stoi(format.substr(newoff, end - newoff));
+                int num = 0;
+                for (end = newoff; format[end] >= '0' && format[end] <= '9'; ++end)
+                {
+                    num = num > (std::numeric_limits<int>::max() - 9) / 10 ? std::numeric_limits<int>::max() : num * 10 + (format[end] - '0');
+                }
                 newoff = end;
                 if (num >= static_cast<int>(r->size()))
                 {
